@@ -441,8 +441,18 @@ pub fn boundary_prefix(rng: &mut Rng, plan: &mut Plan) {
     // physical header 7 + sequence 8 + count 1 + operation 1 + key length 1 + key + value length 3 + value
     let vlen = 32768 - 21 - klen - r;
     let mut pre = vec![Op::Put { k: 0, v: Val { tag: 900_000 + r, len: vlen } }];
+    // half of the time the log is closed and reopened right at the boundary (reuse_log_files then
+    // appends to a log that ends 0-8 bytes before it), and again after the small writes
+    let reopen = rng.chance(1, 2);
+    if reopen {
+        pre.push(Op::Reopen { idx: 0 });
+    }
     for j in 0..(1 + rng.below(3)) as u32 {
         pre.push(Op::Put { k: (1 + j as usize) % plan.keys.len(), v: Val { tag: 900_100 + j, len: 12 + rng.below(40) as u32 } });
+    }
+    if reopen {
+        pre.push(Op::Reopen { idx: 0 });
+        pre.push(Op::Get { k: 0 });
     }
     plan.ops.splice(0..0, pre);
 }
